@@ -24,8 +24,8 @@ from concurrent.futures import ThreadPoolExecutor
 CHECKS = {
     'C20': dict(
         engine='ClientStart',
-        technique='TLA+ spec ClientStart.tla (constructor, frontend thread, server failing at every handshake step, process-kind sentinel path) model-checked with TLC: liveness "constructor returns or raises" under weak fairness, safety Usable/NoLeftover, pre-fix variants rejected; every scenario TLC enumerates is replayed on the real RemoteWorker/ProcessWorker constructors (scripted server cutting the two server-to-client frames at byte offsets with FIN/RST, refused control connect, unknown context id on a real server, real server SIGKILLed at handshake steps through a tap and inside the start-up window of the backend (slow-starting backend via main_path), child exiting before reporting); TLC judges each real execution (ClientStartJudge); leftovers from /proc',
-        text='Exhaustive TLC model checking of the client side of the start-up handshake against a server that fails at every step (27 remote + 2 process scenarios, incl. a server dying between "backend started" and "go-ahead sent"), bound to the code by replaying every enumerated scenario (byte offsets first/middle/last, thorough: every offset) on the real constructors with a 6 s hang bound and judging each execution with the same TLA+ operators.',
+        technique='TLA+ spec ClientStart.tla (constructor, frontend thread, server failing at every handshake step, process-kind sentinel path) model-checked with TLC: liveness "constructor returns or raises" under weak fairness, safety Usable/NoLeftover, pre-fix variants rejected; every scenario TLC enumerates is replayed on the real RemoteWorker/ProcessWorker constructors (scripted server cutting the two server-to-client frames at byte offsets with FIN/RST, refused control connect, unknown context id on a real server, real server SIGKILLed at handshake steps through a tap and inside the start-up window of the backend (slow-starting backend via main_path), runtime-info frame of a REAL server cut on the control connection by a client-side proxy (both remote kinds), child exiting before reporting); TLC judges each real execution (ClientStartJudge); leftovers from /proc',
+        text='Exhaustive TLC model checking of the client side of the start-up handshake against a server that fails at every step (39 remote + 2 process scenarios, incl. a server dying between "backend started" and "go-ahead sent"), bound to the code by replaying every enumerated scenario (byte offsets first/middle/last, thorough: every offset) on the real constructors with a 6 s hang bound and judging each execution with the same TLA+ operators.',
         note='Trusted: TLC; the scripted server reproduces the server side of the protocol up to the fault; a hang is "constructor still blocked after 6 s" (healthy construction takes ~0.1-0.3 s); byte offsets inside a frame are abstracted to none/part/full in the model and enumerated concretely in the replay; a server that stays connected but never answers is outside the property except for the unknown-context case.',
         design_ref='6/C20'),
 }
@@ -228,6 +228,80 @@ class Tap(threading.Thread):
             self.log.append('tap-error:%s:%s' % (type(e).__name__, e))
 
 
+class CtrlProxy(threading.Thread):
+    """Client-side proxy on the CONTROL connection to a real server: relays the connection, except that only the first k
+    bytes of the first server->client frame (the runtime info, sent once the backend child is up) are forwarded before the
+    connection is dropped with FIN or RST.  The backend's pid is read from that frame."""
+
+    def __init__(self, rp, real_addr, step, how, off, connect):
+        super().__init__(daemon=True, name='ctrl-proxy')
+        self.rp, self.real_addr, self.step, self.how, self.off, self._connect = rp, real_addr, step, how, off, connect
+        self.lsock = socket.socket()
+        self.lsock.bind(('127.0.0.1', 0))
+        self.lsock.listen(1)
+        self.addr = self.lsock.getsockname()
+        self.log = []
+        self.backend_pid = None
+        self.done = threading.Event()
+
+    def run(self):
+        cli = up = None
+        try:
+            self.lsock.settimeout(10)
+            cli, _ = self.lsock.accept()
+            self.lsock.close()
+            up = socket.socket()
+            self._connect(up, self.real_addr)
+            up.settimeout(15)
+            fr = _read_frame(up)
+            try:
+                self.backend_pid = self.rp.loads(fr[4:])[1]
+            except Exception:  # noqa
+                pass
+            k = _offset(self.step, fr, self.off)
+            if k >= len(fr):
+                self.log.append('script-error:offset %d beyond the frame (%d bytes)' % (k, len(fr)))
+                k = 0
+            if k:
+                cli.sendall(fr[:k])
+            self.log.append('rinfo[%d/%d] backend %s' % (k, len(fr), self.backend_pid))
+            _end(cli, self.how)
+            cli = None
+        except Exception as e:  # noqa
+            self.log.append('script-error:%s:%s' % (type(e).__name__, e))
+        finally:
+            for s_ in (cli, up):
+                try:
+                    if s_ is not None:
+                        s_.close()
+                except OSError:
+                    pass
+            self.done.set()
+
+
+def _data_socks_open(addr):
+    """our own socket fds that are still connected to `addr` (the server's data address)"""
+    want = '%02X%02X%02X%02X:%04X' % tuple(list(reversed([int(x) for x in addr[0].split('.')])) + [addr[1]])
+    inodes = set()
+    try:
+        with open('/proc/net/tcp') as f:
+            for line in list(f)[1:]:
+                p_ = line.split()
+                if p_[2] == want and p_[3] != '06':        # any state but TIME_WAIT
+                    inodes.add(p_[9])
+    except OSError:
+        return 0
+    n = 0
+    for fd in os.listdir('/proc/self/fd'):
+        try:
+            l = os.readlink('/proc/self/fd/' + fd)
+        except OSError:
+            continue
+        if l.startswith('socket:[') and l[8:-1] in inodes:
+            n += 1
+    return n
+
+
 SLOW_MAIN = '''import os, time
 if __name__ == '__new_main__':          # re-run inside a remote backend (RemoteWorker._run_backend)
     d = os.environ.get('LIFE_FLAGDIR')
@@ -324,7 +398,22 @@ def host_main(case_path, out_path):
                 if not srv.is_alive():
                     raise RuntimeError('could not start a real server: %r' % (srv.error,))
                 host = srv.addr
-                if step == 'kill_window':
+                if step.startswith('rinfo'):
+                    # the LAST handshake step fails, after the backend has been spawned: the client's connect() to the control
+                    # address is redirected (in this process only) through a proxy that cuts the runtime-info frame
+                    real_connect = socket.socket.connect
+                    data_addr = tuple(srv.addr)
+                    holder = {}
+
+                    def redirected(sock, addr):
+                        if 'proxy' not in holder and tuple(addr) != data_addr and addr[0] == '127.0.0.1' and threading.current_thread().name.endswith('(remote front)'):
+                            holder['proxy'] = CtrlProxy(rp, tuple(addr), 'info' + step[5:], how, case.get('off'), real_connect)
+                            holder['proxy'].start()
+                            addr = holder['proxy'].addr
+                        return real_connect(sock, addr)
+                    socket.socket.connect = redirected
+                    tap = holder
+                elif step == 'kill_window':
                     # the server dies between "backend started" and "go-ahead sent": the backend is given a main script that
                     # marks a flag and sleeps when re-run as __new_main__ (remote.py: main_path), i.e. after it has started its
                     # control thread and before it reports its identity; the server is SIGKILLed as soon as the flag appears
@@ -337,7 +426,7 @@ def host_main(case_path, out_path):
                     host = tap.addr
                 if step == 'unknown_ctx':
                     kw['context'] = 'no-such-context'
-            tgt = TG.pers_target if pers else TG.coop_loop
+            tgt = TG.pers_target if pers else (TG.quick_ret if (step.startswith('rinfo') and case.get('variant') != 'long') else TG.coop_loop)
             make = lambda: cls(target=tgt, host=host, name='csW', **kw)  # noqa
         else:
             from pyworkers.process import ProcessWorker
@@ -366,6 +455,7 @@ def host_main(case_path, out_path):
                 box['w'] = make()
             except BaseException as e:  # noqa
                 box['exc'] = type(e).__name__
+                box['err'] = e          # kept, as a caller that logs or collects failures would (nothing is left to the cycle collector)
             box['dur'] = round(time.monotonic() - t0, 3)
         th = threading.Thread(target=ctor, daemon=True, name='ctor')
         th.start()
@@ -383,6 +473,18 @@ def host_main(case_path, out_path):
                 st, ppid = _pstate(pid)
                 parent = srv.pid if srv is not None else me
                 id_ok = 'T' if (pid != me and (pid in seen) and (st in 'ZXx' or ppid == parent or ppid == 1)) else 'F'
+        data_open = 0
+        if kind == 'remote' and outcome == 'raised' and mode != 'none':
+            data_open = _data_socks_open(tuple(host) if not step.startswith('rinfo') else tuple(srv.addr))   # right after the constructor raised
+        if isinstance(tap, dict):
+            pr = tap.get('proxy')
+            if pr is not None:
+                pr.done.wait(5)
+            tap = pr
+            if pr is None:
+                class _NoProxy:
+                    log = ['tap-error:the control connect of the frontend thread was not seen']
+                tap = _NoProxy()
         leftover = -1
         if outcome != 'returned':
             # whatever the failed construction started must be gone (the healthy server itself is not a leftover)
@@ -398,7 +500,7 @@ def host_main(case_path, out_path):
         else:
             leftover = 0
         stop.set()
-        res.update(outcome=outcome, exc=box.get('exc', ''), dur=box.get('dur', -1.0), id_ok=id_ok, leftover=leftover,
+        res.update(outcome=outcome, exc=box.get('exc', ''), dur=box.get('dur', -1.0), id_ok=id_ok, leftover=leftover, data_open=data_open,
                    script_log=(script.log if script else tap.log if tap else []))
     except BaseException as e:  # noqa
         import traceback
@@ -461,6 +563,15 @@ def _cases_from_paths(paths, tier):
             add(kind=kind, pers='F', step=st, how=how, server='real')
             if tier == 'thorough':
                 add(kind=kind, pers='T', step=st, how=how, server='real')
+        elif st.startswith('rinfo'):
+            pers = 'T' if st.endswith('+pers') else 'F'
+            add(kind=kind, pers=pers, step=st.replace('+pers', ''), how=how, server='real')
+            if pers == 'F' and st.startswith('rinfoM'):
+                # a one-shot worker whose target does not end by itself (the other one-shot cases use a short target)
+                add(kind=kind, pers=pers, step='rinfoM', how=how, server='real', variant='long')
+            if tier == 'thorough' and st.startswith('rinfoM'):
+                for off in range(1, 60):
+                    add(kind=kind, pers=pers, step='rinfoM', how=how, server='real', off=off)
         elif st == 'healthy':
             for pers in ('F', 'T'):
                 add(kind=kind, pers=pers, step=st, how=how, server='scripted')
@@ -514,7 +625,14 @@ def _record(case, out):
     return {'id': case['id'],
             'scn': {'kind': case['kind'], 'pers': case['pers'], 'step': case['step'], 'how': case['how'], 'server': case['server'],
                     'off': -1 if case.get('off') is None else case['off'], 'variant': case.get('variant', '')},
-            'obs': {'outcome': out['outcome'], 'exc': out.get('exc', ''), 'id_ok': out['id_ok'], 'leftover': max(0, out['leftover'])}}
+            'obs': {'outcome': out['outcome'], 'exc': out.get('exc', ''), 'id_ok': out['id_ok'], 'leftover': max(0, out['leftover']),
+                    'data_open': out.get('data_open', 0)}}
+
+
+def _mkey(s):
+    """the model's scenario key of a replayed case"""
+    st = s['step'] + ('+pers' if s['step'].startswith('rinfo') and s['pers'] == 'T' else '')
+    return (s['kind'], st, s['how'])
 
 
 def run(prop, tier, replay=None):
@@ -556,7 +674,17 @@ def run(prop, tier, replay=None):
         raise MachineryError('what-if LateClose (backend keeps its copy of the server\'s pipe end until the go-ahead) is not rejected: %r' % rw.error)
     wit['whatif_lateclose'] = rw.error
     ev.add_tlc('what-if: backend closes its copy of the server\'s pipe end only after the go-ahead (must be rejected)', rw, role='vacuity')
-    for w in ('W_Returned', 'W_Raised', 'W_FDead', 'W_Orphan', 'W_WindowEOF'):
+    rw = tlc.run('ClientStartMC', cfg_text=_mc_cfg(LeakData='TRUE').replace('INVARIANT Inv_DataClosed\n', ''), name='whatif_leakdata', must_complete=False, workers=2)
+    if rw.error != 'invariant:Inv_NoLeftover':
+        raise MachineryError('what-if LeakData (the failure exit of _start forgets the data socket) is not rejected by NoLeftover: %r' % rw.error)
+    wit['whatif_leakdata'] = rw.error
+    ev.add_tlc('what-if: the failure exit of _start does not close the data socket (must be rejected)', rw, role='vacuity')
+    rw = tlc.run('ClientStartMC', cfg_text=_mc_cfg(Scenarios='LongOneShot'), name='known_long_oneshot', must_complete=False, workers=2)
+    if rw.error != 'invariant:Inv_NoLeftover':
+        raise MachineryError('the known finding (one-shot backend with a never-ending target outlives a failed construction) is not reproduced by the model: %r' % rw.error)
+    wit['known_long_oneshot'] = rw.error
+    ev.add_tlc('known finding at model level: one-shot backend with a never-ending target, last-step failure (rejected by NoLeftover)', rw, role='vacuity')
+    for w in ('W_Returned', 'W_Raised', 'W_FDead', 'W_Orphan', 'W_WindowEOF', 'W_RInfoBackend'):
         rw = tlc.run('ClientStartMC', cfg_text=_mc_cfg().replace('PROPERTY Live_Returns', 'INVARIANT ' + w), name=w, must_complete=False, workers=2)
         if rw.error != 'invariant:' + w:
             raise MachineryError('witness %s not reachable: %r' % (w, rw.error))
@@ -610,23 +738,28 @@ def run(prop, tier, replay=None):
                 % (clause, 'persistent ' if case['pers'] == 'T' else '', case['kind'], case['server'], case['step'], case['how'],
                    (' at byte %s' % case['off']) if case.get('off') is not None else '', (' [' + case['variant'] + ']') if case.get('variant') else '',
                    out['outcome'], (' ' + out['exc']) if out.get('exc') else '', out.get('dur'), ','.join(map(str, out.get('script_log') or [])),
-                   (' leftover: %s' % out.get('leftover_cmds')) if out.get('leftover', 0) > 0 else ''))
+                   ((' leftover: %s' % out.get('leftover_cmds')) if out.get('leftover', 0) > 0 else '') + ((' data sockets still open in the client: %d' % out['data_open']) if out.get('data_open') else '')))
         violations.append(Violation('C20', sig, what, {k: case[k] for k in ('kind', 'pers', 'step', 'how', 'server', 'off', 'variant')}))
 
     # ---- 4. conformance: which model explains every outcome ----
     fit = {}
     for label in ('pre', 'fix', 'cli', 'srv'):
         fit[label] = sum(1 for rec in records
-                         if rec['obs']['outcome'] in allowed[label].get((rec['scn']['kind'], rec['scn']['step'], rec['scn']['how']), ()))
+                         if rec['obs']['outcome'] in allowed[label].get(_mkey(rec['scn']), ()))
     best = max(fit, key=lambda k: fit[k])
     ev.cov['conformance_detail'] = dict(fit, best=best, of=len(records))
     if fit[best] < len(records):
         for rec in records:
             s = rec['scn']
-            if rec['obs']['outcome'] not in allowed[best].get((s['kind'], s['step'], s['how']), ()) and len(drift) < 4:
+            if rec['obs']['outcome'] not in allowed[best].get(_mkey(s), ()) and len(drift) < 4:
                 drift.append('constructor outcome %s for %s %s:%s (%s server) is not an outcome of ClientStart.tla with Fix=%s (model: %s)'
                              % (rec['obs']['outcome'], s['kind'], s['step'], s['how'], s['server'], best,
-                                sorted(allowed[best].get((s['kind'], s['step'], s['how']), ()))))
+                                sorted(allowed[best].get(_mkey(s), ()))))
+    for rec in records:
+        if rec['obs']['outcome'] == 'raised' and rec['obs']['data_open'] and len(drift) < 6:
+            s_ = rec['scn']
+            drift.append('after the constructor raised (%s %s:%s, %s server) %d data socket(s) to the server are still open in the client; '
+                         'ClientStart.tla closes the data connection on every failure exit of _start' % (s_['kind'], s_['step'], s_['how'], s_['server'], rec['obs']['data_open']))
     ev.cov['traces_validated_against_impl'] = fit[best]
     ev.cov['evaluations'] = len(records)
     ev.cov['distinct_nontrivial'] = len(set((r_['scn']['kind'], r_['scn']['pers'], r_['scn']['step'], r_['scn']['how'], r_['scn']['server'],
